@@ -188,8 +188,21 @@ class FakeSeries(object):
     def empty(self):
         return len(self._v) == 0
 
+    @property
+    def str(self):
+        return _StrAccessor(self)
+
     def tolist(self):
         return list(self._v)
+
+
+class _StrAccessor(object):
+    def __init__(self, s):
+        self.s = s
+
+    def len(self):
+        return FakeSeries([NaN if is_missing_value(v) is True or v is None else len(v) for v in self.s._v],
+                          self.s.index, DType('float64'))
 
 
 class RowArray(object):
